@@ -45,6 +45,7 @@ def random_session(rng, profile="small", solve_calls=("find_answer",), max_produ
     for _ in range(rng.randint(1, 3)):
         declare()
     keys = set()
+    pool = {"b": [], "i": []}       # sub-expressions of this session, re-used (as the same objects) later on
     n_solves = rng.randint(1, 3)
     depth = rng.choice([1, 2, 2, 3, 3, 4])
     lits = (-3, -1, 0, 1, 2, 5, 300, -1000) if profile == "small" else (-41, -7, 0, 3, 40, 80)
@@ -54,7 +55,7 @@ def random_session(rng, profile="small", solve_calls=("find_answer",), max_produ
             if c < 0.2:
                 declare()
             elif c < 0.85 or "solve" not in solve_calls:
-                g = Gen(rng, decl, lits)
+                g = Gen(rng, decl, lits, pool)
                 steps.append({"a": "ensure", "x": g.posted(depth)})
             else:
                 cand = [i for i in range(len(decl)) if i not in keys]
